@@ -94,6 +94,8 @@ ASSUMPTIONS = [
 
 FAMILIES = ("dict", "ctx", "choice-dict", "fs", "choice-fs")
 FS_FAMILIES = ("fs", "choice-fs")
+LOOP_FAMILIES = ("fs", "choice-fs", "fs-multi", "ns-fs")  # async needs a real event loop
+NS_FAMILIES = ("ns-dict", "ns-choice", "ns-fs")
 INJECT_KINDS = ("InjectedSourceError", "TemplateNotFoundError")
 
 # ---------------------------------------------------------------------------
@@ -173,6 +175,35 @@ def _build_classes() -> Any:
         Faulty.__name__ = "Faulty" + base.__name__
         return Faulty
 
+    def ns_aware(base):  # noqa: ANN001, ANN202
+        """Tenant-aware subclass in the style of docs/loading_templates.md: get_source
+        refines the template name from the namespace the load carries (keyword argument
+        `ns` first — whatever its value, even None or 0 — else the render context's global
+        `ns`), and falls back to nothing: '<tenant>/<name>' must exist."""
+
+        def scoped(template_name, context, kwargs):  # noqa: ANN001, ANN202
+            if "ns" in kwargs:
+                return f"{ref.ns_tag(kwargs['ns'])}/{template_name}"
+            if context is not None and "ns" in context.globals:
+                return f"{ref.ns_tag(context.globals['ns'])}/{template_name}"
+            return template_name
+
+        class NsAware(base):
+            def get_source(self, env, template_name, *, context=None, **kwargs):  # noqa: ANN001, ANN003, ANN201
+                return super().get_source(
+                    env, scoped(template_name, context, kwargs), context=context, **kwargs
+                )
+
+        if base.get_source_async is not BaseLoader.get_source_async:
+            async def get_source_async(self, env, template_name, *, context=None, **kwargs):  # noqa: ANN001, ANN003, ANN202
+                return await super(NsAware, self).get_source_async(
+                    env, scoped(template_name, context, kwargs), context=context, **kwargs
+                )
+
+            NsAware.get_source_async = get_source_async  # type: ignore[method-assign]
+        NsAware.__name__ = "NsAware" + base.__name__
+        return NsAware
+
     class GatedDictLoader(DictLoader):
         """get_source_async suspends once (scheduler decides who continues)."""
 
@@ -208,6 +239,12 @@ def _build_classes() -> Any:
     k.FaultyCtx = faulty(CachingNsDictLoader)
     k.FaultyChoice = faulty(CachingChoiceLoader)
     k.FaultyFs = faulty(CachingFileSystemLoader)
+    k.NsAwareDict = ns_aware(DictLoader)
+    k.NsAwareChoice = ns_aware(ChoiceLoader)
+    k.NsAwareFs = ns_aware(FileSystemLoader)
+    k.FaultyNsAwareDict = faulty(ns_aware(CachingDictLoader))
+    k.FaultyNsAwareChoice = faulty(ns_aware(CachingChoiceLoader))
+    k.FaultyNsAwareFs = faulty(ns_aware(CachingFileSystemLoader))
     k.CachingGatedDictLoader = CachingGatedDictLoader
     k.ThreadSafeCachingDictLoader = ThreadSafeCachingDictLoader
     k.LRUCache = LRUCache
@@ -225,6 +262,9 @@ class Store:
     has_fresh = False
 
     with_site = False
+    names: tuple[str, ...] = NAMES
+    ns_values: tuple[object, ...] = NAMESPACES
+    typed_ns = False  # True: namespace identity is the typed value, not its str()
 
     def __init__(self) -> None:
         self.armed: str | None = None
@@ -479,11 +519,12 @@ class ChoiceFsStore(Store):
 
     family = "choice-fs"
     has_fresh = True
+    dirnames = ("L1", "L2")
 
     def __init__(self, root: str) -> None:
         super().__init__()
-        self.d1 = os.path.join(root, "L1")
-        self.d2 = os.path.join(root, "L2")
+        self.d1 = os.path.join(root, self.dirnames[0])
+        self.d2 = os.path.join(root, self.dirnames[1])
         os.makedirs(self.d1)
         os.makedirs(self.d2)
         self.files = _Files()
@@ -518,6 +559,166 @@ class ChoiceFsStore(Store):
             [k.FileSystemLoader(self.d1), k.FileSystemLoader(self.d2)],
             auto_reload=auto, namespace_key=nskey, capacity=cap,
         )
+        ld.vf_store = self
+        return ld
+
+    def stamp(self, origin: str) -> object:
+        return self.files.stamps.get(origin)
+
+    def is_fresh(self, e: ref.Entry) -> bool:
+        return e.stamp is not None and self.files.stamps.get(e.origin) == e.stamp
+
+
+class FsMultiStore(ChoiceFsStore):
+    """ONE CachingFileSystemLoader over two search paths (same layout and step meaning
+    as ChoiceFsStore)."""
+
+    family = "fs-multi"
+    dirnames = ("M1", "M2")
+
+    def __init__(self, root: str) -> None:
+        super().__init__(root)
+        self.twin = K().FileSystemLoader([self.d1, self.d2])
+
+    def make_loader(self, cap: int, auto: bool, nskey: str) -> Any:
+        ld = K().FaultyFs([self.d1, self.d2], auto_reload=auto, namespace_key=nskey, capacity=cap)
+        ld.vf_store = self
+        return ld
+
+
+def _ns_sources(name: str) -> list[tuple[str, str]]:
+    """(place, key) of every tenant's copy of *name*: the shared one and one per value."""
+    out = [("shared", name)]
+    for v in ref.NS_VALUES:
+        t = ref.ns_tag(v)
+        out.append((t, f"{t}/{name}"))
+    return out
+
+
+class NsDictStore(Store):
+    """Namespace-dependent sources for the tenant-aware CachingDictLoader subclass: every
+    name exists once without namespace and once per namespace value; modify rewrites all
+    copies of a name, delete removes them."""
+
+    family = "ns-dict"
+    names = ref.NS_NAMES
+    ns_values = ref.NS_VALUES
+    typed_ns = True
+
+    def __init__(self) -> None:
+        super().__init__()
+        self.t: dict[str, str] = {}
+        self.twin = K().NsAwareDict(self.t)
+
+    def _write(self, n: str, v: int) -> None:
+        for place, key in _ns_sources(n):
+            self.t[key] = ref.body(place, n, v, self.with_site)
+
+    _dirty: set[str] | None = None  # None: nothing written yet
+
+    def reset(self) -> None:
+        self.armed = None
+        self.ver = {}
+        for n in (self.names if self._dirty is None else self._dirty):
+            self._write(n, 0)
+        self._dirty = set()
+
+    def modify(self, name: str, mkind: int = 0, rename: int = 0) -> None:  # noqa: ARG002
+        assert self._dirty is not None
+        self._dirty.add(name)
+        self._write(name, self._bump(name))
+
+    def delete(self, name: str) -> None:
+        assert self._dirty is not None
+        self._dirty.add(name)
+        for _, key in _ns_sources(name):
+            self.t.pop(key, None)
+
+    def make_loader(self, cap: int, auto: bool, nskey: str) -> Any:
+        ld = K().FaultyNsAwareDict(self.t, auto_reload=auto, namespace_key=nskey, capacity=cap)
+        ld.vf_store = self
+        return ld
+
+
+class NsChoiceStore(NsDictStore):
+    """Tenant-aware CachingChoiceLoader subclass over two dict loaders: names x and a/x
+    live in the first, b/x and a/b/x in the second."""
+
+    family = "ns-choice"
+
+    def __init__(self) -> None:
+        Store.__init__(self)
+        self.t1: dict[str, str] = {}
+        self.t2: dict[str, str] = {}
+        k = K()
+        self.twin = k.NsAwareChoice([k.DictLoader(self.t1), k.DictLoader(self.t2)])
+
+    def _home(self, n: str) -> tuple[dict[str, str], str]:
+        return (self.t1, "L1") if n in ("x", "a/x") else (self.t2, "L2")
+
+    def _write(self, n: str, v: int) -> None:
+        d, lbl = self._home(n)
+        for place, key in _ns_sources(n):
+            d[key] = ref.body(f"{place}@{lbl}", n, v, self.with_site)
+
+    def delete(self, name: str) -> None:
+        assert self._dirty is not None
+        self._dirty.add(name)
+        d, _ = self._home(name)
+        for _, key in _ns_sources(name):
+            d.pop(key, None)
+
+    def make_loader(self, cap: int, auto: bool, nskey: str) -> Any:
+        k = K()
+        ld = k.FaultyNsAwareChoice(
+            [k.DictLoader(self.t1), k.DictLoader(self.t2)],
+            auto_reload=auto, namespace_key=nskey, capacity=cap,
+        )
+        ld.vf_store = self
+        return ld
+
+
+class NsFsStore(Store):
+    """Tenant-aware CachingFileSystemLoader subclass: <dir>/<tenant>/<name> files."""
+
+    family = "ns-fs"
+    has_fresh = True
+    names = ref.NS_NAMES
+    ns_values = ref.NS_VALUES
+    typed_ns = True
+
+    def __init__(self, root: str) -> None:
+        super().__init__()
+        self.dir = os.path.join(root, "nsfs")
+        os.makedirs(self.dir)
+        self.files = _Files()
+        self.dirty: set[str] = set(self.names)
+        self.twin = K().NsAwareFs(self.dir)
+
+    def _write(self, n: str, v: int, mkind: int = 0, rename: int = 0) -> None:
+        for place, key in _ns_sources(n):
+            p = os.path.join(self.dir, key)
+            os.makedirs(os.path.dirname(p), exist_ok=True)
+            self.files.write(p, ref.body(place, n, v, self.with_site), mkind, rename)
+
+    def reset(self) -> None:
+        self.armed = None
+        self.ver = {}
+        for n in self.dirty:
+            self._write(n, 0)
+        self.dirty = set()
+
+    def modify(self, name: str, mkind: int = 0, rename: int = 0) -> None:
+        self.dirty.add(name)
+        self._write(name, self._bump(name), mkind, rename)
+
+    def delete(self, name: str) -> None:
+        self.dirty.add(name)
+        for _, key in _ns_sources(name):
+            self.files.unlink(os.path.join(self.dir, key))
+
+    def make_loader(self, cap: int, auto: bool, nskey: str) -> Any:
+        ld = K().FaultyNsAwareFs(self.dir, auto_reload=auto, namespace_key=nskey, capacity=cap)
         ld.vf_store = self
         return ld
 
@@ -593,6 +794,7 @@ class Harness:
         self.loop: asyncio.AbstractEventLoop | None = None
         self.inline_executor = inline_executor
         self._rc: dict[tuple[int, str], Any] = {}
+        self._parents: dict[tuple[int, str, str], Any] = {}
         self.minimal: dict[str, list[tuple[list[Op], str]]] = {}
         self.min_budget = 60
         self._pat_fails: dict[tuple[str, str], bool] = {}
@@ -627,6 +829,14 @@ class Harness:
                 st = FsStore(self.root)
             elif family == "choice-fs":
                 st = ChoiceFsStore(self.root)
+            elif family == "fs-multi":
+                st = FsMultiStore(self.root)
+            elif family == "ns-dict":
+                st = NsDictStore()
+            elif family == "ns-choice":
+                st = NsChoiceStore()
+            elif family == "ns-fs":
+                st = NsFsStore(self.root)
             else:
                 raise ValueError(family)
             st.with_site = self.with_site
@@ -640,29 +850,43 @@ class Harness:
                 self.loop.set_default_executor(InlineExecutor())  # type: ignore[arg-type]
         return self.loop
 
-    def render_context(self, site: int, ns: str) -> Any:
-        rc = self._rc.get((site, ns))
+    def render_context(self, site: int, has_ns: bool, ns: object) -> Any:
+        ck = (site, ref.ns_tag(ns) if has_ns else "")
+        rc = self._rc.get(ck)
         if rc is None:
             env = self.envs[site]
-            rc = K().RenderContext(env.from_string(""), global_data={"ns": ns})
-            self._rc[(site, ns)] = rc
+            rc = K().RenderContext(
+                env.from_string(""), global_data={"ns": ns} if has_ns else {}
+            )
+            self._rc[ck] = rc
         return rc
 
     def real_load(self, env: Any, family: str, name: str, g: Any, kw: dict[str, Any],
-                  mode: int) -> tuple[str, str]:
-        loop = self._loop() if (mode and family in FS_FAMILIES) else None
+                  mode: int, partial_tag: str = "", pglobals: dict[str, Any] | None = None,
+                  ) -> tuple[str, str]:
+        """One load-and-render step on the real caching loader.  partial_tag: the load
+        is made by a `render` / `include` tag of a parent template whose globals
+        (*pglobals*) reach the loader through the render context."""
+        loop = self._loop() if (mode and family in LOOP_FAMILIES) else None
         try:
-            if mode == 0:
+            if partial_tag:
+                parent = env.from_string("{% " + partial_tag + " '" + name + "' %}",
+                                         globals=pglobals)
+                if mode == 0:
+                    return ("ok", parent.render())
+                coro = parent.render_async()
+            elif mode == 0:
                 return ("ok", env.get_template(name, globals=g, **kw).render())
+            else:
+                async def step() -> str:
+                    t = await env.get_template_async(name, globals=g, **kw)
+                    return await t.render_async()
 
-            async def step() -> str:
-                t = await env.get_template_async(name, globals=g, **kw)
-                return await t.render_async()
-
-            if family in FS_FAMILIES:
+                coro = step()
+            if family in LOOP_FAMILIES:
                 assert loop is not None
-                return ("ok", loop.run_until_complete(step()))
-            return ("ok", sched.drive(step()))
+                return ("ok", loop.run_until_complete(coro))
+            return ("ok", sched.drive(coro))
         except Exception as e:  # noqa: BLE001
             return ("err", type(e).__name__)
 
@@ -699,31 +923,52 @@ class Harness:
             if kind != "load":
                 saw_other = True
                 if kind == "modify":
-                    st.modify(NAMES[op.name], op.g, op.via)
+                    st.modify(st.names[op.name], op.g, op.via)
                 elif kind == "delete":
-                    st.delete(NAMES[op.name])
+                    st.delete(st.names[op.name])
                 else:
                     st.armed = inject
                 if trace is not None:
-                    trace.append(f"  step {i}: {ref.show_op(op)}")
+                    trace.append(f"  step {i}: {ref.show_op(op, family)}")
                 continue
-            name = NAMES[op.name]
-            ns = NAMESPACES[op.ns - 1] if op.ns else None
-            kw: dict[str, Any] = {}
-            if ns is not None:
-                if op.via:
-                    kw["context"] = self.render_context(site_i, ns)
-                else:
-                    kw["ns"] = ns
+            name = st.names[op.name]
+            has_ns = op.ns != 0
+            ns: Any = st.ns_values[op.ns - 1] if has_ns else None
             who = f"u{i}" if op.g == 1 else None
             g: Any = {"who": who} if op.g == 1 else ({} if op.g == 2 else None)
+            # how the namespace travels: 0 keyword, 1 render context handed to get_template,
+            # 2/3 a render/include tag of a parent rendered with globals {ns: ...},
+            # 4 keyword AND a render context carrying a different value (keyword wins)
+            kw: dict[str, Any] = {}
+            partial_tag = ""
+            pglobals: dict[str, Any] | None = None
+            if op.via in (2, 3):
+                partial_tag = "render" if op.via == 2 else "include"
+                pglobals = dict(g or {})
+                if has_ns:
+                    pglobals["ns"] = ns
+                tkw: dict[str, Any] = {"context": self.render_context(site_i, has_ns, ns),
+                                       "tag": partial_tag}
+            else:
+                if has_ns:
+                    if op.via == 1:
+                        kw["context"] = self.render_context(site_i, True, ns)
+                    else:
+                        kw["ns"] = ns
+                        if op.via == 4:
+                            kw["context"] = self.render_context(
+                                site_i, True, ref.other_ns(family, op.ns))
+                tkw = kw
             # what the uncached twin returns at this moment (no injected fault)
             try:
-                ts = twin.get_source(env, name, **kw)
+                ts = twin.get_source(env, name, **tkw)
                 now: tuple[Any, ...] = ("ok", ts.source, ts.name, st.stamp(ts.name))
             except Exception as e:  # noqa: BLE001
                 now = ("err", type(e).__name__)
-            key = ref.model_key(name, ns, nskey)
+            if nskey and has_ns:
+                key = f"{ref.ns_tag(ns)}|{name}" if st.typed_ns else f"{ns}/{name}"
+            else:
+                key = name
             armed = st.armed
             ent_before = model.get(key)
             was_resident = ent_before is not None
@@ -734,14 +979,19 @@ class Harness:
             if self.full_twin and record and now[0] == "ok":
                 tenv = self.twin_envs[site_i]
                 tenv.loader = twin
-                full = tenv.get_template(name, globals=g, **kw).render()
+                if partial_tag:
+                    full = tenv.from_string(
+                        "{% " + partial_tag + " '" + name + "' %}", globals=pglobals
+                    ).render()
+                else:
+                    full = tenv.get_template(name, globals=g, **kw).render()
                 if full != ref.render_ref(now[1], who, site):
                     raise AssertionError(
                         f"reference rendering disagrees with the uncached twin: {full!r} "
                         f"vs {ref.render_ref(now[1], who, site)!r}"
                     )
                 ctx.count("twin_full_renders")
-            obs = self.real_load(env, family, name, g, kw, op.mode)
+            obs = self.real_load(env, family, name, g, kw, op.mode, partial_tag, pglobals)
             n_loads += 1
             matched = None
             exps = []
@@ -757,7 +1007,7 @@ class Harness:
             clen = len(loader.cache)
             if trace is not None:
                 trace.append(
-                    f"  step {i}: {ref.show_op(op)}  key={key} twin-now={_short_now(now)} "
+                    f"  step {i}: {ref.show_op(op, family)}  key={key} twin-now={_short_now(now)} "
                     f"armed={armed} expected={exps} observed={obs} "
                     f"len(cache)={clen} cache-keys={list(loader.cache.keys())} "
                     f"model(before)={model.view()}"
@@ -769,7 +1019,7 @@ class Harness:
                     cfg, model, key, name, ns, was_resident, now, alts[0], exps[0], obs, who, site
                 )
                 return Divergence(i, cat, what, {
-                    "step": i, "op": ref.show_op(op), "cache_key": key, "expected": exps,
+                    "step": i, "op": ref.show_op(op, family), "cache_key": key, "expected": exps,
                     "observed": obs, "model_before": model.view(),
                     "real_cache_keys": [str(x) for x in loader.cache.keys()],
                 })
@@ -788,7 +1038,7 @@ class Harness:
                         else "reload_older_mtime" if cur < ent_before.stamp  # type: ignore[operator]
                         else "reload_newer_mtime"
                     )
-            if diag and matched.outcome[0] == "ok":
+            if diag and matched.outcome[0] == "ok" and not st.typed_ns:
                 # after a successful load its key must be resident; if it is not, but a
                 # key differing only by the namespace prefix is, the key was derived wrongly
                 rk = {str(x) for x in loader.cache.keys()}
@@ -796,14 +1046,14 @@ class Harness:
                     rc = _key_disagreement(key, rk)
                     if rc is not None:
                         return Divergence(
-                            i, rc, f"after {ref.show_op(op)} the cache holds {sorted(rk)} "
+                            i, rc, f"after {ref.show_op(op, family)} the cache holds {sorted(rk)} "
                                    f"but not the key {key!r} of this load",
-                            {"step": i, "op": ref.show_op(op), "real_cache_keys": sorted(rk),
+                            {"step": i, "op": ref.show_op(op, family), "real_cache_keys": sorted(rk),
                              "model_keys": sorted(model.od)})
             if clen > cap:
                 return Divergence(i, "capacity-exceeded",
                                   f"len(loader.cache)={clen} > capacity={cap}", {
-                                      "step": i, "op": ref.show_op(op), "len_cache": clen,
+                                      "step": i, "op": ref.show_op(op, family), "len_cache": clen,
                                       "real_cache_keys": [str(x) for x in loader.cache.keys()]})
         if record:
             ctx.count("loads_compared", n_loads)
@@ -855,7 +1105,7 @@ class Harness:
         ]
         own = model.last.get(key)
         own_matches = own is not None and marker(own.source) == obs_marker
-        if fam == "ctx" and po[0] != pe[0]:
+        if (fam == "ctx" or ref.is_ns_family(fam)) and po[0] != pe[0]:
             return ("namespace-leak", what + " (content selected for another namespace)")
         if own_matches:
             if was_resident:
@@ -900,7 +1150,7 @@ class Harness:
             changed = True
             while changed:
                 changed = False
-                for cand in ref.simplifications(cur):
+                for cand in ref.simplifications(cur, cfg["family"]):
                     if cand != cur and self.fails(cfg, cand) == cat:
                         cur = cand
                         changed = True
@@ -937,6 +1187,15 @@ class Harness:
             self.ctx.count("minimiser_runs")
             if self.run_history(cfg, twin, record=False) is None:
                 return f"async-path-only:{base}:" + forms(lambda o: bool(o.mode))
+        fam = cfg["family"]
+        if ref.is_ns_family(fam):
+            if len(small) == 2 and len(loads) == 2:
+                coll = ref.engine_key_collision(small[0], small[1], fam)
+                if coll is not None:
+                    # two different (namespace, name) identities whose '<ns>/<name>' strings
+                    # coincide; one key per kind of coincidence, whatever the values
+                    return f"namespace-key-collision:{coll}"
+            return f"{cat}:{ref.pattern(ref.sort_commuting(small), cat, fam)}"
         if any(o.ns for o in loads):
             twin = [o._replace(ns=0, via=0) if o.kind == "load" else o for o in small]
             self.ctx.count("minimiser_runs")
@@ -972,8 +1231,27 @@ class Harness:
         known = self.minimal.setdefault(cat, [])
         key = None
         small: list[Op] | None = None
-        for pat, k in known:
-            embs = list(ref.embeddings(pat, hist))
+        fam = cfg["family"]
+        if ref.is_ns_family(fam) and not self.diag:
+            # two loads of different (namespace, name) identity whose '<ns>/<name>' strings
+            # coincide: named directly when that pair alone reproduces the divergence
+            last = hist[-1]
+            colliders = [
+                j for j in range(len(hist) - 1)
+                if hist[j].kind == "load"
+                and ref.engine_key_collision(hist[j], last, fam) is not None
+            ]
+            if colliders:
+                j = colliders[-1]
+                coll = ref.engine_key_collision(hist[j], last, fam)
+                pair = [hist[j]._replace(g=0), last._replace(g=0)]
+                without = [o for i2, o in enumerate(hist) if i2 not in colliders]
+                # the pair alone reproduces it, or taking the colliding loads away cures it
+                if pair == hist or self.fails(cfg, pair) == cat or self.fails(cfg, without) != cat:
+                    key, small = f"namespace-key-collision:{coll}", pair
+                    ctx.count("violations_named_as_key_collision")
+        for pat, k in ([] if key is not None else known):
+            embs = list(ref.embeddings(pat, hist, exact=ref.is_ns_family(cfg["family"])))
             if not embs:
                 continue
             for idx in embs:
@@ -1009,17 +1287,17 @@ class Harness:
             d2 = self.run_history(cfg, small, record=False, trace=tr, diag=self.diag) or d
         wit = {
             "kind": "history", "cfg": dict(cfg), "ops": [o.j() for o in small],
-            "readable": [ref.show_op(o) for o in small], "at": d2.view,
+            "readable": [ref.show_op(o, cfg["family"]) for o in small], "at": d2.view,
             "origin": origin,
         }
         if small != hist and len(hist) <= 8:
-            wit["minimised_from"] = [ref.show_op(o) for o in hist]
+            wit["minimised_from"] = [ref.show_op(o, cfg["family"]) for o in hist]
         if symptom:
             # the key names the first disagreement about cache keys (diagnostic); the
             # behavioural violation is the symptom history, which is what replay executes
             wit["symptom"] = symptom[2:]
             wit["symptom_ops"] = [o.j() for o in full]
-            wit["symptom_readable"] = [ref.show_op(o) for o in full]
+            wit["symptom_readable"] = [ref.show_op(o, cfg["family"]) for o in full]
         wit["category"] = cat
         ctx.violation(key, f"[{cfg_id(cfg)}] {cat}: {d2.what}{symptom}", wit)
         return key
@@ -1078,7 +1356,13 @@ def mtime_len(tier: str) -> int:
 
 
 def mtime_configs() -> list[dict[str, Any]]:
-    return [{"family": f, "cap": c, "auto": True} for f in FS_FAMILIES for c in (1, 2)]
+    # fs-multi: one CachingFileSystemLoader over two search paths
+    return [{"family": f, "cap": c, "auto": True}
+            for f in (*FS_FAMILIES, "fs-multi") for c in (1, 2)]
+
+
+def nsval_configs() -> list[dict[str, Any]]:
+    return [{"family": f, "cap": 2, "auto": True} for f in NS_FAMILIES]
 
 
 def mtime_expected(tier: str) -> int:
@@ -1117,6 +1401,10 @@ def shards(tier: str, seed: int) -> list[dict[str, Any]]:  # noqa: ARG001
     for cfg in mtime_configs():
         for i in range(nm):
             specs.append({"kind": "mtime", "cfg": cfg, "i": i, "n": nm})
+    for cfg in nsval_configs():
+        nn = (6 if cfg["family"] == "ns-fs" else 3) * (1 if tier == "quick" else 2)
+        for i in range(nn):
+            specs.append({"kind": "nsval", "cfg": cfg, "i": i, "n": nn})
     nr = 12 if tier == "quick" else 48
     for i in range(nr):
         specs.append({"kind": "random", "i": i, "n": nr})
@@ -1142,7 +1430,10 @@ def floors(tier: str) -> dict[str, int]:
             "distinct_nontrivial": 100_000,
             "set:configs": 30,
             "exh_histories_done": 1_000_000,
-            "mtime_histories_done": 58_584,
+            "mtime_histories_done": 87_876,
+            "nsval_histories_done": 311_904,
+            "set:nsval_value_pairs": 110,
+            "set:nsval_channels": 25,
             "reload_older_mtime": 5_000,
             "reload_newer_mtime": 5_000,
             "ev:hit-equal-mtime": 1_000,
@@ -1167,7 +1458,10 @@ def floors(tier: str) -> dict[str, int]:
         "nontrivial_histories": 2_000_000,
         "set:configs": 30,
         "exh_histories_done": 15_000_000,
-        "mtime_histories_done": 700_000,
+        "mtime_histories_done": 1_000_000,
+        "nsval_histories_done": 311_904,
+        "set:nsval_value_pairs": 110,
+        "set:nsval_channels": 25,
         "reload_older_mtime": 50_000,
         "reload_newer_mtime": 50_000,
         "ev:hit-equal-mtime": 10_000,
@@ -1191,6 +1485,8 @@ def exhaustive(tier: str, merged: dict[str, Any]) -> bool:
     want = sum(exh_expected(tier, c["family"], c["cap"], c["auto"]) for c in configs())
     got = merged["counters"].get("exh_histories_done", 0)
     if merged["counters"].get("mtime_histories_done", 0) != mtime_expected(tier):
+        return False
+    if merged["counters"].get("nsval_histories_done", 0) != ref.nsval_count() * len(nsval_configs()):
         return False
     return got == want and not merged.get("truncated") and not merged.get("failed")
 
@@ -1220,6 +1516,8 @@ def run_shard(spec: dict[str, Any], ctx: Ctx) -> None:
             _lrudeep(h, spec, ctx)
         elif kind == "mtime":
             _mtime(h, spec, ctx)
+        elif kind == "nsval":
+            _nsval(h, spec, ctx)
         elif kind == "random":
             _random(h, spec, ctx)
         else:
@@ -1271,7 +1569,7 @@ def _exh(h: Harness, spec: dict[str, Any], ctx: Ctx) -> None:
     ctx.count("real_source_consultations", h.store(cfg["family"]).consults)
     if sample is not None and i == 0:
         ctx.sample({"kind": "exhaustive", "cfg": cfg_id(cfg),
-                    "history": [ref.show_op(o) for o in sample]})
+                    "history": [ref.show_op(o, cfg["family"]) for o in sample]})
 
 
 def _lrudeep(h: Harness, spec: dict[str, Any], ctx: Ctx) -> None:
@@ -1311,10 +1609,34 @@ def _mtime(h: Harness, spec: dict[str, Any], ctx: Ctx) -> None:
         ctx.count("mtime_histories_done")
         last = ops
     if last is not None and i == 0:
-        ctx.sample({"kind": "mtime", "cfg": cfg_id(cfg), "history": [ref.show_op(o) for o in last]})
+        ctx.sample({"kind": "mtime", "cfg": cfg_id(cfg), "history": [ref.show_op(o, cfg["family"]) for o in last]})
 
 
-def random_history(rng: random.Random, length: int) -> list[Op]:
+def _nsval(h: Harness, spec: dict[str, Any], ctx: Ctx) -> None:
+    """Namespace-value family on the tenant-aware loaders (see c14_lru.nsval_pairs)."""
+    cfg = spec["cfg"]
+    ctx.seen("configs", cfg_id(cfg))
+    i, n = spec["i"], spec["n"]
+    last = None
+    for idx, ops in enumerate(ref.nsval_pairs()):
+        if idx % n != i:
+            continue
+        if idx & 1023 == 0:
+            ctx.check_deadline()
+        _run_and_report(h, cfg, ops, ctx, "nsval", only_last=False)
+        ctx.count("nsval_histories_done")
+        if ops[0].ns and ops[1].ns and ops[0].ns != ops[1].ns:
+            ctx.seen("nsval_value_pairs", (ops[0].ns, ops[1].ns))
+        ctx.seen("nsval_channels", (ops[0].via, ops[1].via))
+        last = ops
+    if last is not None and i == 0:
+        ctx.sample({"kind": "nsval", "cfg": cfg_id(cfg),
+                    "history": [ref.show_op(o, cfg["family"]) for o in last]})
+
+
+def random_history(rng: random.Random, length: int, fam: str = "") -> list[Op]:
+    if ref.is_ns_family(fam):
+        return _random_ns_history(rng, length)
     ops: list[Op] = []
     n_names = rng.choice((2, 3, 3))
     for _ in range(length):
@@ -1337,6 +1659,44 @@ def random_history(rng: random.Random, length: int) -> list[Op]:
     return ops
 
 
+def _random_ns_history(rng: random.Random, length: int) -> list[Op]:
+    """Random history over the namespace-value vocabulary: few names and a small pool of
+    values per history (so that the same and the colliding identities recur)."""
+    if rng.random() < 0.7:
+        # vocabulary without two identities whose '<ns>/<name>' strings coincide, so that
+        # long histories are not all cut short by the key-collision finding
+        free = [i + 1 for i, v in enumerate(ref.NS_VALUES) if v not in ("0", "1", "a/b")]
+        pool = [0, 0] + rng.sample(free, rng.choice((2, 3, 4)))
+        has_a = any(ref.NS_VALUES[i - 1] == "a" for i in pool if i)
+        allowed = [0, 2] if has_a else list(range(len(ref.NS_NAMES)))
+        names = rng.sample(allowed, rng.choice((1, 2)))
+    else:
+        names = rng.sample(range(len(ref.NS_NAMES)), rng.choice((1, 2, 3)))
+        pool = [0, 0] + rng.sample(range(1, len(ref.NS_VALUES) + 1), rng.choice((2, 3, 4)))
+    ops: list[Op] = []
+
+    def load() -> Op:
+        ns = rng.choice(pool)
+        via = rng.randrange(5) if ns else rng.choice((0, 0, 2, 3))
+        return Op("load", rng.choice(names), ns, rng.choice((0, 1, 1, 2)), rng.randrange(2), via)
+
+    for _ in range(length):
+        r = rng.random()
+        if r < 0.72:
+            ops.append(load())
+        elif r < 0.86:
+            ops.append(Op("modify", rng.choice(names), 0, rng.choice((0, 0, 1, 2)), 0, 0))
+        elif r < 0.93:
+            ops.append(Op("delete", rng.choice(names)))
+        else:
+            ops.append(Op("fail"))
+    ops.append(load())
+    return ops
+
+
+RANDOM_FAMILIES = (*FAMILIES, "fs-multi", *NS_FAMILIES)
+
+
 def _random(h: Harness, spec: dict[str, Any], ctx: Ctx) -> None:
     tier = spec["tier"]
     rng = random.Random(f"{spec['seed']}:random:{spec['i']}")
@@ -1347,23 +1707,23 @@ def _random(h: Harness, spec: dict[str, Any], ctx: Ctx) -> None:
     for hi in range(per):
         if hi & 15 == 0:
             ctx.check_deadline()
-        fam = FAMILIES[(hi + spec["i"]) % len(FAMILIES)]
+        fam = RANDOM_FAMILIES[(hi + spec["i"]) % len(RANDOM_FAMILIES)]
         cfg = {
             "family": fam, "cap": rng.choice((1, 2, 3)), "auto": rng.random() < 0.5,
-            "nskey": "ns" if (fam == "ctx" or rng.random() < 0.8) else "",
+            "nskey": "ns" if (fam == "ctx" or ref.is_ns_family(fam) or rng.random() < 0.8) else "",
             "site": 1 if rng.random() < 0.3 else 0,
             "inject": rng.choice(INJECT_KINDS),
         }
         ctx.seen("configs", cfg_id({"family": fam, "cap": cfg["cap"], "auto": cfg["auto"]}))
         ctx.seen("random_configs", cfg_id(cfg))
-        ops = random_history(rng, rng.randrange(5, 40))
+        ops = random_history(rng, rng.randrange(5, 40), fam)
         ctx.mx("max:random_history_length", len(ops))
         _run_and_report(h, cfg, ops, ctx, "random", only_last=False)
         ctx.count("random_histories")
         last = (cfg, ops)
     if last is not None:
         ctx.sample({"kind": "random", "cfg": cfg_id(last[0]),
-                    "history": [ref.show_op(o) for o in last[1]]})
+                    "history": [ref.show_op(o, last[0]["family"]) for o in last[1]]})
 
 
 # ---------------------------------------------------------------------------
